@@ -8,7 +8,7 @@
    the remaining operations are tied by the correspondence run (three-way with std::vec::Vec) only. *)
 From Coq Require Import ZArith List Bool Lia Permutation.
 From MV Require Import Ast Eval Scalar Machine Model Policy.
-From MV.Proofs Require Import Arith Logic Prim View OpsLocal Guards Grow CapHistory Drops DrainIt Core Refine Clone Append SplitOff Extend CloneSlice RetainSpec RetainAbs.
+From MV.Proofs Require Import Arith Logic Prim View OpsLocal Guards Grow CapHistory Drops DrainIt Core Refine Clone Append SplitOff Extend CloneSlice RetainSpec RetainAbs History.
 Import ListNotations.
 Open Scope Z_scope.
 
@@ -221,7 +221,10 @@ Theorem C01_extend_any_iterator :
     (fun _ s' => p = false /\ vabs cfg s' v (l ++ zseq (next_elem s) n) /\ next_elem s' = next_elem s + Z.of_nat n /\
                  (forall e, e < next_elem s -> ledger s' e = ledger s e))
     (fun s' => exists k, (k <= n)%nat /\ vabs cfg s' v (l ++ zseq (next_elem s) k) /\
-                         (forall e, e < next_elem s -> ledger s' e = ledger s e)).
+                         (forall e, e < next_elem s -> ledger s' e = ledger s e) /\
+                         next_elem s <= next_elem s' /\
+                         (forall e, next_elem s <= e < next_elem s' ->
+                                    In e (zseq (next_elem s) k) \/ ledger s' e = Dropped)).
 Proof. exact extend_abs. Qed.
 Print Assumptions C01_extend_any_iterator.
 
@@ -271,8 +274,25 @@ Theorem C01_retain_is_filter :
   post (retain cfg v sc s)
     (fun _ s' => p = false /\ vabs cfg s' v k /\ (forall e, In e j -> ledger s' e = Dropped) /\
                  (forall e, ~ In e j -> ledger s' e = ledger s e) /\ next_elem s' = next_elem s)
-    (fun s' => (p = true /\ exists l', Permutation l' l /\ vabs cfg s' v l' /\ ledger s' = ledger s) \/
-               (p = false /\ vabs cfg s' v k /\ (forall e, In e j -> ledger s' e = Dropped) /\
-                (forall e, ~ In e j -> ledger s' e = ledger s e))).
+    (fun s' => next_elem s' = next_elem s /\
+               ((p = true /\ exists l', Permutation l' l /\ vabs cfg s' v l' /\ ledger s' = ledger s) \/
+                (p = false /\ vabs cfg s' v k /\ (forall e, In e j -> ledger s' e = Dropped) /\
+                 (forall e, ~ In e j -> ledger s' e = ledger s e)))).
 Proof. exact retain_abs. Qed.
 Print Assumptions C01_retain_is_filter.
+
+(* The history theorem with the closure-driven bulk operations: EVERY sequence of push / insert / pop /
+   remove / swap_remove / truncate / capacity operations / retain(any predicate script) /
+   extend(any iterator script), any arguments, any panicking destructors, each panic caught: no
+   undefined behaviour, no hang, and the contents follow the list specification `hsteps`
+   (retain: the accepted sub-list, or a permutation if the predicate panicked; extend: the old
+   contents followed by fresh distinct elements, all n of them unless something panicked);
+   every element ever created stays accounted for. *)
+Theorem C01_histories_with_retain_and_extend_refine_the_list_model :
+  forall cfg ncap, cfg_ok cfg -> policy_ok ncap -> needs_drop cfg = true ->
+  forall v os s l,
+  vacc cfg s v l -> Forall hop_ok os ->
+  post (run_hops cfg ncap v os s) (fun _ s' => exists l', hsteps os l l' /\ vacc cfg s' v l') (fun _ => False).
+Proof. exact history_refines_list_spec_bulk. Qed.
+Print Assumptions C01_histories_with_retain_and_extend_refine_the_list_model.
+(* (the premise vacc is satisfiable: C01_new_vector_is_the_empty_list above) *)
